@@ -114,4 +114,5 @@ func genMore(outDir string) {
 	genEpochs(outDir)
 	genAccum(outDir)
 	genAuth(outDir)
+	genGamm(outDir)
 }
